@@ -145,6 +145,7 @@ def sys_lattice():
 
 
 def cases(tier, rng):
+    yield case_line('ts.consts')
     sl = secs_lattice()
     for s in sl:
         for n in NSECS:
